@@ -124,6 +124,10 @@ pub fn run(ctx: &Ctx) {
         v
     }, check_hist);
 
+    ctx.cold("cold_start_concurrent", "eight threads of a fresh process make their first block operation at the same moment (four start with decrypt, four with encrypt): racy lazy initialisation would show here", || {
+        (0..3u64).map(|r| (0..8u64).map(|i| Hist { key: Hex(expand_bytes((r << 8 | i) ^ 0xc02e, 16)), ops: vec![(i % 2 == 0, Hex(expand_bytes((r << 8 | i) ^ 0x44, 16))), (i % 2 == 1, Hex(expand_bytes((r << 8 | i) ^ 0x55, 16)))] }).collect::<Vec<_>>()).collect::<Vec<_>>()
+    }, |steps: &Vec<Hist>| par(steps, check_hist));
+
     ctx.exhaustive(
         "single_bit_key_x_block",
         "all 128 single-bit keys x 128 single-bit blocks",
